@@ -1328,6 +1328,9 @@ class Engine:
                 return k(Vec(n, lambda i: z3.substitute(term, (q, i if _is_z3(i) else z3.IntVal(i)))), s0)
             if kind == "dict" and isinstance(it, Opq) and self._is_items_filter(e):
                 return self.filter_dict_opq(e, g, s0, fr, k)
+            if kind in ("list", "gen", "set") and isinstance(it, Opq) and g.ifs and isinstance(e.elt, ast.Name) \
+                    and isinstance(g.target, ast.Name) and e.elt.id == g.target.id:
+                return self.filter_seq_opq(e, g, it, s0, fr, k)
             if isinstance(it, Opq) or (isinstance(it, Ref) and it.kind in ("iter",)):
                 self.assumptions.add(f"comprehension at line {e.lineno} of {self.cur.key}: element expressions have no "
                                      "side effects; the result is an opaque value")
@@ -1380,6 +1383,25 @@ class Engine:
         self.assumptions.add("library model: a filtering dict comprehension over X.items() keeps exactly the items satisfying its condition")
         st = st.assume(z3.ForAll([q], ct(res, q) == z3.And(ct(src, q), cq), patterns=[ct(res, q)]))
         st = st.assume(z3.ForAll([q], z3.Implies(ct(res, q), gi(res, q) == gi(src, q)), patterns=[gi(res, q)]))
+        return k(Opq(res), st)
+
+    def filter_seq_opq(self, e, g, it, st, fr, k):
+        """Trusted model of ``[x for x in X if cond(x)]`` (also as generator / set) over an opaque iterable X: a collection
+        holding exactly the elements of X that satisfy the condition."""
+        kq = self.fresh("fe", "V")
+        ct = z3.Function("contains", V, V, z3.BoolSort())
+        conds = []
+
+        def bound(s2):
+            return self.ev_list(list(g.ifs), s2, fr, lambda vs, s3: conds.append([self.truth(v) for v in vs]))
+        self.assign(g.target, Opq(kq), st, fr, bound, e)
+        if len(conds) != 1:
+            raise Unsupported("filter condition that branches")
+        cond = z3.And(*conds[0])
+        res = self.fresh(f"filtered_{self.comp_ordinal(e)}", "V")
+        q = z3.Const("fq", V)
+        self.assumptions.add("library model: a filtering comprehension over an opaque iterable keeps exactly the elements satisfying its condition")
+        st = st.assume(z3.ForAll([q], ct(res, q) == z3.And(ct(it.t, q), z3.substitute(cond, (kq, q))), patterns=[ct(res, q)]))
         return k(Opq(res), st)
 
     def filter_list(self, it, g, st, fr, k, node):
